@@ -296,15 +296,25 @@ def abandon(q, k):
             close()
 
 
+def ambient(case):
+    """The block that is open around the consumer of the results (case["consume_in"]), or nothing."""
+    import contextlib
+    from entity_query_language import symbolic_mode, rule_mode
+    where = case.get("consume_in")
+    return symbolic_mode() if where == "query" else (rule_mode() if where == "rule" else contextlib.nullcontext())
+
+
 def run_query(case, objs, negate=0, quant=None, times=1):
     """Build freshly and evaluate; returns (rows, built).  With times > 1 the same query object is evaluated again and
     every evaluation must return the row set of the first one (ReevaluationDiffers otherwise)."""
     built = build_query(case, objs, negate=negate, quant=quant)
-    abandon(built.q, case.get("abandon_first", 0))
-    res = list(built.q.evaluate())
+    with ambient(case):
+        abandon(built.q, case.get("abandon_first", 0))
+        res = list(built.q.evaluate())
     first = rows_of(built, res)
     for n in range(2, times + 1):
-        again = rows_of(built, list(built.q.evaluate()))
+        with ambient(case):
+            again = rows_of(built, list(built.q.evaluate()))
         if {ident(r) for r in again} != {ident(r) for r in first}:
             raise ReevaluationDiffers(f"evaluation {n} of the same query object gave {show_rows(again)}, the first one "
                                       f"{show_rows(first)}")
@@ -340,6 +350,7 @@ def render_query(case):
             "cond": A.r_cond(case["cond"]) if case.get("cond") is not None else None,
             "split_top": case.get("split_top"),
             "select": f"{case.get('desc')}[{', '.join(A.r_term(t) for t in case['sel'])}]", "quant": case.get("quant", "an"),
+            **({"results_requested_inside": case["consume_in"] + " block"} if case.get("consume_in") else {}),
             **({"earlier_query_sharing_the_expression_objects": A.r_cond(case["prelude"])} if case.get("prelude") is not None else {}),
             **({"earlier_queries_sharing_the_comparison_objects": [
                 A.r_cond(e["cond"]) + ("" if e.get("take") is None else f" [given up after {e['take']} result(s)]")
